@@ -43,8 +43,14 @@ fn c19_vector_map_vs_btreemap() {
                 if m.len() != model.len() { return Some((i, format!("len()={}", m.len()), format!("{}", model.len()))); }
                 if m.is_empty() != model.is_empty() { return Some((i, format!("is_empty()={}", m.is_empty()), format!("{}", model.is_empty()))); }
                 for q in 0..universe as usize {
+                    if m.get_mut(&q).map(|x| *x) != model.get(&q).copied() { return Some((i, format!("get_mut({q})={:?}", m.get_mut(&q).map(|x| *x)), format!("{:?}", model.get(&q)))); }
                     if m.get(&q) != model.get(&q) { return Some((i, format!("get({q})={:?}", m.get(&q)), format!("{:?}", model.get(&q)))); }
                 }
+                let it: Vec<(usize, u32)> = m.iter().map(|(k, v)| (k, *v)).collect();
+                let wantit: Vec<(usize, u32)> = model.iter().map(|(k, v)| (*k, *v)).collect();
+                if it != wantit { return Some((i, format!("iter()={it:?}"), format!("{wantit:?}"))); }
+                let vals: Vec<u32> = m.values().copied().collect();
+                if vals != model.values().copied().collect::<Vec<u32>>() { return Some((i, format!("values()={vals:?}"), format!("{:?}", model.values().collect::<Vec<_>>()))); }
                 let idx: Vec<usize> = m.indices().collect();
                 let want: Vec<usize> = model.keys().copied().collect();
                 if idx != want { return Some((i, format!("indices()={idx:?}"), format!("{want:?}"))); }
